@@ -249,7 +249,9 @@ func (multi *MultiEpoch) GetBlock(ctx context.Context, params *old_faithful_grpc
 						txNode, err := epochHandler.GetTransactionByCid(ctx, tcid)
 						if err != nil {
 							klog.Errorf("failed to decode Transaction %s: %v", tcid, err)
-							return nil
+							// NOTE: the slot of this transaction would otherwise stay nil in
+							// allTransactionNodes and be dereferenced below.
+							return fmt.Errorf("failed to get Transaction %s: %w", tcid, err)
 						}
 						mu.Lock()
 						allTransactionNodes[entryIndex][txI] = txNode
